@@ -112,6 +112,8 @@ Definition aspect_of (tbl : list item) (n : nat) (pre : bool) (a gas : N) (p : j
     | 0 => (ret, left, None)
     | 1 => ([], 0, Some "out of gas"%string)
     | 2 => ([], left, Some "execution reverted"%string)
+    | 4 => ([], left, Some "aspect: inner call failed: out of gas"%string)   (* contains the words, is not the out-of-gas error *)
+    | 5 => ([], left, Some "contract creation code storage out of gas"%string)
     | _ => ([], left, Some "aspect failed"%string)
     end
   | _ => ([], gas, None)
